@@ -1,7 +1,7 @@
 #!/bin/bash
 # verify every delivered, not yet stored seed; one worktree at a time per property, properties in parallel
 cd /verif
-for id in $(ls /tmp/wt | grep '^C[0-9][0-9]$'); do
+for id in ${@:-$(ls /tmp/wt | grep "^C[0-9][0-9]$")}; do
   (
   for w in /tmp/wt/$id/SEED/*/patch.diff; do
     [ -f "$w" ] || continue
